@@ -50,7 +50,8 @@ def menu(base, **over):
     return m
 
 
-MENU_BIG = menu(MENU_HUB, amax=2000000)
+# moderate prices only: 1000x prices times millions leave TLC's 31-bit integers in intermediate results
+MENU_BIG = menu(MENU_HUB, amax=2000000, prices=[[1, 0, 0], [0, 750000000, 0], [1, 500000000, 0], [0, 333333333, 333333333]])
 
 
 def hub_drives(runs=(150, 4000), big=(40, 1500)):
@@ -279,7 +280,7 @@ PLANS["C17"] = dict(
     mc=[disp_mc("grid")], hunt=[disp_hunt("grid")],
     sim=[dict(name="grid", module="MC_Dispatch", consts=dict(DISP_CONSTS), init="InitP", extra=dict(DISP), num=(60, 2500), depth=12)],
     drive=[dict(name="dispatch", menu=MENU_DISP, runs=(150, 4000), len=40, consts=dict(MaxBatch=8)),
-           dict(name="dispatch-big", menu=menu(MENU_DISP, amax=2000000), runs=(40, 1500), len=40, consts=dict(MaxBatch=8, UserFunds=400000000))])
+           dict(name="dispatch-big", menu=menu(MENU_DISP, amax=2000000, prices=[[1, 0, 0], [0, 750000000, 0], [1, 500000000, 0], [0, 333333333, 333333333]]), runs=(40, 1500), len=40, consts=dict(MaxBatch=8, UserFunds=400000000))])
 
 PLANS["C19"] = dict(
     invariants=[], actions=["Act_C19"], rule="non-trivial: successful UpdateGlobalIndex with pending rewards on >= 1 validator (also triggered by RemoveValidator)",
